@@ -658,7 +658,27 @@ def cb_source(items, sfx=""):
     return "#[diplomat::bridge]\npub mod ffi {\n" + CB_PRELUDE % {"x": sfx} + "".join(s for (_n, _l, s) in items) + "}\n"
 
 
-SHAPE_GROUPS = {"attrs": ATTRS, "cyc": CYC, "multi": MULTI, "ns": NS, "ren": REN, "zst": ZST}
+# lifetime bounds that can only be written as where clauses (they relate lifetimes of the impl header); the methods have no generic
+# parameter list of their own, or one that does not mention the bounded lifetime.  The wrappers the macro emits must restate them.
+LTS = """#[diplomat::bridge]
+pub mod ffi {
+    #[diplomat::opaque]
+    pub struct LtOp(pub u8);
+    pub struct LtPair<'long, 'short> { pub l: &'long LtOp, pub s: &'short LtOp }
+    impl<'long, 'short> LtPair<'long, 'short> {
+        pub fn pick(self) -> &'short LtOp where 'long: 'short { self.l }
+        pub fn pick2<'c>(self, other: &'c LtOp) -> &'c LtOp where 'long: 'short { other }
+    }
+    #[diplomat::opaque]
+    pub struct LtHold<'a, 'b>(pub &'a LtOp, pub &'b LtOp);
+    impl<'a, 'b> LtHold<'a, 'b> {
+        pub fn first(&self) -> &'b LtOp where 'a: 'b { self.0 }
+        pub fn both<'c>(&'c self) -> &'c LtOp where 'a: 'c, 'b: 'c { self.0 }
+    }
+}
+"""
+
+SHAPE_GROUPS = {"attrs": ATTRS, "cyc": CYC, "lts": LTS, "multi": MULTI, "ns": NS, "ren": REN, "zst": ZST}
 # groups that a backend may refuse (not counted as an accepted module there)
 OPTIONAL_GROUPS = {"dis_%s_%s" % (k, l): _dis_source(k, l) for k in ("st", "en", "op") for l in ("c", "cpp", "js")}
 # `use crate::ma::..` in MULTI is resolved by rustc through these re-exports at the crate root (the tool sees multi.rs as root)
